@@ -72,6 +72,8 @@ enum Op {
     Ins(u8),
     Ins2(u8, u8),
     Upd(u8),
+    /// fixed-width in-place update by primary key: only the INT column changes (row size unchanged)
+    UpdA(u8),
     UpdAll,
     Del(u8),
     DelAll,
@@ -94,6 +96,9 @@ fn universe() -> Vec<Op> {
     }
     for k in 1..=3 {
         v.push(Op::Upd(k));
+    }
+    for k in 1..=3 {
+        v.push(Op::UpdA(k));
     }
     for k in 1..=3 {
         v.push(Op::Del(k));
@@ -128,6 +133,7 @@ impl Op {
             Op::Ins(k) => format!("INS{k}"),
             Op::Ins2(a, b) => format!("INS2_{a}{b}"),
             Op::Upd(k) => format!("UPD{k}"),
+            Op::UpdA(k) => format!("UPDA{k}"),
             Op::UpdAll => "UPDALL".into(),
             Op::Del(k) => format!("DEL{k}"),
             Op::DelAll => "DELALL".into(),
@@ -154,6 +160,7 @@ impl Op {
             Op::TxnIns(k) => vec![Op::Ins(1), Op::Ins(k), Op::TxnIns(1)],
             Op::TxnUpdAll => vec![Op::Upd(1), Op::UpdAll],
             Op::Upd(_) => vec![Op::Upd(1), Op::Upd(2)],
+            Op::UpdA(_) => vec![Op::UpdA(1), Op::UpdA(2)],
             Op::UpdAll => vec![Op::Upd(1)],
             Op::Del(_) => vec![Op::Del(1), Op::Del(2)],
             Op::DelAll => vec![Op::Del(1)],
@@ -333,6 +340,7 @@ impl RunKey {
                         format!("INS2[{x}{y}]")
                     }
                     Op::Upd(k) => format!("UPD[{}]", letter(k)),
+                    Op::UpdA(k) => format!("UPDA[{}]", letter(k)),
                     Op::Del(k) => format!("DEL[{}]", letter(k)),
                     Op::TxnIns(k) => format!("TXN_INS[{}]", letter(k)),
                     Op::Prep(a, b) => {
@@ -426,6 +434,7 @@ fn op_exec(t: &TestDb, var: Var, op: Op, step: usize) -> Vec<Res> {
         Op::Ins(k) => vec![t.exec(&format!("INSERT INTO t (id,a,s) VALUES {}", ins(k, 'i')))],
         Op::Ins2(a, b) => vec![t.exec(&format!("INSERT INTO t (id,a,s) VALUES {},{}", ins(a, 'i'), ins(b, 'j')))],
         Op::Upd(k) => vec![t.exec(&format!("UPDATE t SET a = {}, s = '{}' WHERE id = {k}", k % 3 + 1, text_val(var, step, 'u')))],
+        Op::UpdA(k) => vec![t.exec(&format!("UPDATE t SET a = {} WHERE id = {k}", k % 3 + 4 + (step as u8 % 2)))],
         Op::UpdAll => vec![t.exec("UPDATE t SET a = a + 1")],
         Op::Del(k) => vec![t.exec(&format!("DELETE FROM t WHERE id = {k}"))],
         Op::DelAll => vec![t.exec("DELETE FROM t")],
@@ -1024,6 +1033,7 @@ fn full_alphabet() -> Vec<Op> {
         Op::Ins2(2, 3),
         Op::Upd(1),
         Op::Upd(2),
+        Op::UpdA(1),
         Op::UpdAll,
         Op::Del(1),
         Op::Del(2),
@@ -1039,7 +1049,7 @@ fn full_alphabet() -> Vec<Op> {
     ]
 }
 fn reduced_alphabet() -> Vec<Op> {
-    vec![Op::Ins(1), Op::TxnUpdAll, Op::Ins2(2, 3), Op::Upd(1), Op::UpdAll, Op::Del(1), Op::Trunc, Op::CIdx, Op::InsA, Op::TxnIns(3)]
+    vec![Op::Ins(1), Op::TxnUpdAll, Op::Ins2(2, 3), Op::Upd(1), Op::UpdA(1), Op::UpdAll, Op::Del(1), Op::Trunc, Op::CIdx, Op::InsA, Op::TxnIns(3)]
 }
 
 const CKPTS: [Maint; 3] = [Maint::Ckpt, Maint::PragmaCkpt, Maint::AutoCkpt];
@@ -1057,7 +1067,7 @@ fn passes(ctx: &Ctx) -> Vec<Pass> {
     v.push(Pass { name: "comp-reopen", vars: ALL_VARS.to_vec(), alphabet: full_alphabet(), max_ops: if q { 2 } else { 3 }, maints: REOPENS.to_vec(), wals: both.clone(), comp: true, pairs: false, pos0_upto: 1 });
     // deepest level over a reduced alphabet
     let deep_vars = if q { vec![Var::PkIdx, Var::Auto] } else { vec![Var::PkIdx, Var::Auto, Var::Big] };
-    let deep_alpha = if q { vec![Op::Ins(1), Op::TxnUpdAll, Op::Upd(1), Op::UpdAll, Op::Del(1), Op::Trunc, Op::InsA, Op::TxnIns(3)] } else { reduced_alphabet() };
+    let deep_alpha = if q { vec![Op::Ins(1), Op::TxnUpdAll, Op::Upd(1), Op::UpdA(1), Op::UpdAll, Op::Del(1), Op::Trunc, Op::InsA, Op::TxnIns(3)] } else { reduced_alphabet() };
     // (with WAL off the explicit checkpoints are no-ops on a database without WAL object: WAL on only)
     v.push(Pass { name: "deep-checkpoint", vars: deep_vars.clone(), alphabet: deep_alpha.clone(), max_ops: if q { 3 } else { 4 }, maints: CKPTS.to_vec(), wals: vec![true], comp: false, pairs: false, pos0_upto: 0 });
     v.push(Pass { name: "deep-comp-reopen", vars: deep_vars, alphabet: deep_alpha, max_ops: if q { 3 } else { 4 }, maints: REOPENS.to_vec(), wals: both.clone(), comp: true, pairs: false, pos0_upto: 0 });
@@ -1841,7 +1851,7 @@ impl Check for C04 {
         if ctx.opt("only").map(|o| o == "wal-left-off").unwrap_or(true) {
             let q = ctx.quick();
             let a1: Vec<Op> = if q { vec![Op::Ins(1), Op::Ins2(2, 3), Op::Upd(1), Op::Del(1), Op::InsA] } else { vec![Op::Ins(1), Op::Ins(2), Op::Ins2(2, 3), Op::Upd(1), Op::UpdAll, Op::Del(1), Op::InsA, Op::TxnIns(3)] };
-            let a2: Vec<Op> = vec![Op::Upd(1), Op::UpdAll, Op::Del(1), Op::Ins(2), Op::Upd(2)];
+            let a2: Vec<Op> = vec![Op::Upd(1), Op::UpdA(1), Op::UpdAll, Op::Del(1), Op::Ins(2), Op::Upd(2)];
             let seqs = |alpha: &[Op], min: usize, max: usize| -> Vec<Vec<Op>> {
                 let mut out: Vec<Vec<Op>> = vec![];
                 let mut level: Vec<Vec<Op>> = vec![vec![]];
